@@ -2,6 +2,7 @@ package main
 
 import (
 	"fmt"
+	"hash/fnv"
 	"strings"
 	"sync"
 )
@@ -210,8 +211,34 @@ func sto(arr, idx, v Term) Term {
 	return t
 }
 
+// constArrDecls: constant arrays whose element is not an SMT value (uninterpreted sorts) cannot be
+// written with (as const ...) in cvc5; they become named constants with a defining axiom.
+var constArrDecls sync.Map
+
 func constArray(sort string, v Term) Term {
+	if strings.Contains(v.S, "inil") || strings.Contains(v.S, "bempty") || strings.Contains(v.S, "opaque0") || strings.Contains(v.S, "constarr_") {
+		h := fnv.New32a()
+		h.Write([]byte(v.S))
+		name := fmt.Sprintf("constarr_%s_%x", mangleSort(sort), h.Sum32())
+		_, es := splitArraySort(sort)
+		ks, _ := splitArraySort(sort)
+		_ = es
+		constArrDecls.Store(name, fmt.Sprintf("(declare-const %s %s)\n(assert (forall ((i %s)) (! (= (select %s i) %s) :pattern ((select %s i)))))", name, sort, ks, name, v.S, name))
+		return withSt(Term{S: name, Sort: sort}, &tstruct{kind: 'k', a: v})
+	}
 	return withSt(Term{S: fmt.Sprintf("((as const %s) %s)", sort, v.S), Sort: sort}, &tstruct{kind: 'k', a: v})
+}
+
+func mangleSort(s string) string {
+	var b strings.Builder
+	for _, r := range s {
+		if r >= 'a' && r <= 'z' || r >= 'A' && r <= 'Z' || r >= '0' && r <= '9' {
+			b.WriteRune(r)
+		} else if r != ' ' && r != '(' && r != ')' {
+			b.WriteRune('_')
+		}
+	}
+	return b.String()
 }
 
 func mkSlice(arr, off, ln, cp Term) Term {
